@@ -39,6 +39,10 @@ var c03Devs = []c03DevSpec{{"failure", 3}, {"stream-error", 4}, {"unexpected", 8
 
 func c03DevValid(step string, d peer.Dev) bool {
 	switch step {
+	case "resume":
+		if d.Kind == "failure" {
+			return false // <failed/> is a refusal, after which a fresh bind is correct: expressed by ResumeReply, not by a deviation
+		}
 	case "tls":
 		return d.Kind == "close" || d.Kind == "malformed"
 	case "bind", "session":
